@@ -103,7 +103,7 @@ func c07History(first c07Op, length int, withStop bool, b Bounds) *Scenario {
 			h := &c07H{gates: NewGates(), running: map[string]string{}}
 			body := func() {
 				lib, peer, _ := NewPipe(PipeOpts{Name: "srv", CloseUnblocksRecv: true})
-				baseCtx, baseCancel := context.WithCancel(context.Background())
+				baseCtx, baseCancel := cancelCauseCtx()
 				srv := jrpc2.NewServer(c07Assigner{h.handler()}, &jrpc2.ServerOptions{Concurrency: 4,
 					NewContext: func() context.Context { return baseCtx }})
 				srv.Start(lib)
@@ -950,8 +950,83 @@ func c07BatchDups(k int, b Bounds) *Scenario {
 	}
 }
 
+// c07LostReply: the reply to a call (or to a batch) cannot be sent - the channel refuses that one
+// record and stays up, the server keeps running. The calls are over all the same: their ids must be
+// free again, and their contexts ended.
+func c07LostReply(batch bool, b Bounds) *Scenario {
+	name := "the reply to call(1) is refused by the channel once; id 1 is used again"
+	if batch {
+		name = "the reply to batch[call(1),call(2)] is refused by the channel once; ids 1 and 2 are used again"
+	}
+	return &Scenario{
+		Name:   name,
+		Params: map[string]any{"batch": batch, "fault": "the Send of the first reply fails, the connection stays up"},
+		Bounds: b,
+		New: func() *Instance {
+			h := &c07H{gates: NewGates(), running: map[string]string{}}
+			body := func() {
+				lib, peer, pipe := NewPipe(PipeOpts{Name: "srv", CloseUnblocksRecv: true})
+				srv := jrpc2.NewServer(c07Assigner{h.handler()}, &jrpc2.ServerOptions{Concurrency: 4})
+				srv.Start(lib)
+				bad := func(msg string) { vs.Yield("report"); vs.Note("eager-viol", msg) }
+				vs.GoNamed("peer", func() {
+					defer peer.Close()
+					pipe.FailSend = errFault
+					if batch {
+						peer.Send([]byte(`[{"jsonrpc":"2.0","id":1,"method":"fast0a"},{"jsonrpc":"2.0","id":2,"method":"fast0b"}]`))
+					} else {
+						peer.Send([]byte(`{"jsonrpc":"2.0","id":1,"method":"fast0"}`))
+					}
+					vs.AwaitQuiescence()
+					if pipe.FailSend != nil {
+						bad("the reply was never handed to the channel")
+						return
+					}
+					if keys, ok := privKeys(srv, "used"); ok && len(keys) > 0 {
+						bad("the reply could not be sent, the calls are over, but their ids are still reserved: " + strings.Join(keys, ","))
+					}
+					ids := []string{"1"}
+					if batch {
+						ids = []string{"2", "1"}
+					}
+					for k, id := range ids {
+						peer.Send([]byte(fmt.Sprintf(`{"jsonrpc":"2.0","id":%s,"method":"fast%d"}`, id, k+1)))
+						r, ok := peer.Recv()
+						if !ok {
+							bad("no reply to the call re-using id " + id)
+							return
+						}
+						ms, _, _ := parseRecord(r)
+						for _, m := range ms {
+							if m.Has("error") {
+								bad(fmt.Sprintf("id %s is free again (its call is over, the reply was lost in the channel), but the new call was refused: %s", id, m.Raw))
+							}
+						}
+					}
+					vs.AwaitQuiescence()
+					if keys, ok := privKeys(srv, "used"); ok && len(keys) > 0 {
+						bad("ids still reserved after every call has been answered: " + strings.Join(keys, ","))
+					}
+				})
+				srv.WaitStatus()
+			}
+			return &Instance{Body: body, Check: func(x *vs.Exec) []Viol {
+				v := genericRules(x, nil)
+				Hit("C07.R6")
+				for _, e := range x.Log {
+					if e.K == "eager-viol" {
+						v = append(v, Viol{"C07.R6", e.Arg(0)})
+					}
+				}
+				return v
+			}}
+		},
+	}
+}
+
 func c07Scenarios(tier string) []*Scenario {
 	var out []*Scenario
+	out = append(out, c07LostReply(false, Bounds{1, 1, 0}), c07LostReply(true, Bounds{1, 1, 0}))
 	var firsts []c07Op
 	for _, id := range []string{"1"} { // ids are symmetric: the first operation uses id 1
 		for _, m := range c07Methods {
